@@ -210,7 +210,7 @@ def run_threads(ns, ctx, spec):
                 return text, fields(back), fields(derived), back == obj, model.from_prj(conf)
             return run
 
-        res, y = yieldrun.run_concurrently([body(t) for t in range(nthreads)], codes, sleep=0.0002, max_yields=8000)
+        res, y = yieldrun.run_concurrently([body(t) for t in range(nthreads)], codes, sleep=0.0002, max_yields=8000, stagger=(0.0, 0.001, 0.005)[rnd % 3])
         total += y
         ctx.bin("identifiers_printed_parsed_and_derived_by_concurrent_threads")
         for t, r in enumerate(res):
